@@ -520,6 +520,8 @@ def getattr_(R, E, base, attr, node):
         return ExternFn(base.name + "." + attr, base.self_obj)
     if isinstance(base, Raised):
         return ()
+    if isinstance(base, ClassOf) and attr == "__name__" and isinstance(base.obj, Obj) and isinstance(base.obj.fields.get("$class"), str):
+        return base.obj.fields["$class"]
     for h in R.attr_hooks:
         r = h(E, base, attr, node)
         if r is not NotImplemented:
